@@ -530,6 +530,20 @@ pub fn sleep(d: Duration) {
   }
 }
 
+/// an operation on an atomic: a schedule point (the operation itself is performed by the caller right after)
+pub fn atomic_point() {
+  if let Some(me) = active() {
+    let abort = {
+      let g = RT.lock().unwrap_or_else(|e| e.into_inner());
+      g.as_ref().map(|r| r.aborted.is_some()).unwrap_or(true)
+    };
+    if !abort && !std::thread::panicking() {
+      let g = RT.lock().unwrap();
+      reschedule(g, me);
+    }
+  }
+}
+
 pub fn yield_now() {
   match active() {
     None => std::thread::yield_now(),
